@@ -313,20 +313,38 @@ def build(ex):
         return all_cleaned(c)
     cleaned_stays.__doc__ = 'after the clean-up loop: ' + all_cleaned.__doc__
 
+    def close_locals(fi):
+        """the names _close uses for the list of clean-up threads and for one such thread, read off its AST (so that a renaming is followed)"""
+        import ast
+        thr, jobs = None, None
+        for n in ast.walk(fi.node):
+            if isinstance(n, ast.Assign) and isinstance(n.value, ast.Call) and ast.unparse(n.value.func).endswith('Thread') and isinstance(n.targets[0], ast.Name):
+                thr = n.targets[0].id
+        for n in ast.walk(fi.node):
+            if isinstance(n, ast.Call) and isinstance(n.func, ast.Attribute) and n.func.attr == 'append' and isinstance(n.func.value, ast.Name) \
+                    and n.args and isinstance(n.args[0], ast.Name) and n.args[0].id == thr:
+                jobs = n.func.value.id
+        targets = {n.target.id for n in ast.walk(fi.node) if isinstance(n, ast.For) and isinstance(n.iter, ast.Name) and n.iter.id == jobs and isinstance(n.target, ast.Name)}
+        return jobs or '_cleanup_jobs', thr or 't', targets or {'t'}
+    JOBS, THR, JOB_VARS = close_locals(ex.repo.func(P + '._close'))
+
     def job_is_thread(ex_, fr):
-        fr.locals['t'] = VSym(fr.locals['t'].t, hint=('abs', 'Proc'))
+        for nm in JOB_VARS:
+            v = fr.locals.get(nm)
+            if isinstance(v, VSym):
+                fr.locals[nm] = VSym(v.t, hint=('abs', 'Proc'))
     AWF = ['abs:AW.alive', 'abs:AW.seen_dead', 'abs:AW.wait_true', 'abs:AW.terminated']
     lemmas.append((Contract(
         P + '._close', lid='L1', name='C09.L1 Pool._close cleans up every registered worker, closes every queue and marks the pool closed',
         params={'self': ('const', None), 'timeout': 'any', 'force': 'any', 'graceful': 'bool'}, self_class=P, setup=close_setup,
         ensures=[all_cleaned, queues_closed, 'self._pool_closed', queues_subset],
         raises={'RuntimeError': 'old(self._map_guard) and not old(self._pool_closed)'}, raises_only=['RuntimeError'],
-        loops={0: Loop(invariant=[visited_cleaned, maps_as_at_entry], modifies=['ghost:cleaned_set', 'abs:Proc.alive', '_cleanup_jobs'] + AWF,
-                       locals={'t': lambda I, nm: VAbs('Proc', I.ex.fresh(nm, Val))}),
+        loops={0: Loop(header='_workers.values()', invariant=[visited_cleaned, maps_as_at_entry], modifies=['ghost:cleaned_set', 'abs:Proc.alive', JOBS] + AWF,
+                       locals={THR: lambda I, nm: VAbs('Proc', I.ex.fresh(nm, Val))}),
                1: Loop(invariant=[], modifies=[], on_bind=job_is_thread),
                2: Loop(invariant=[], modifies=[], on_bind=job_is_thread),
-               3: Loop(invariant=[visited_closed, maps_as_at_entry, cleaned_stays], modifies=['abs:Conn.open'])},
-        options={'__local_kinds__': {(P + '._close', '_cleanup_jobs'): 'symlist'}, 'recv_closed_check': False}), None))
+               3: Loop(header='_queues.values()', invariant=[visited_closed, maps_as_at_entry, cleaned_stays], modifies=['abs:Conn.open'])},
+        options={'__local_kinds__': {(P + '._close', JOBS): 'symlist'}, 'recv_closed_check': False}), None))
 
     # ------------------------------------------------------------------ L1b __exit__
     def exit_setup(ex_, env):
@@ -444,6 +462,20 @@ def build(ex):
                                'of the pipe that was handed to its restart()')
     done_registered.forall = idx_keys
 
+    def restart_locals(fi):
+        """names restart_workers uses for (old id, worker) in its loop and for the fresh pipe, read off its AST (a renaming is followed)"""
+        import ast
+        kn, wn, qn = 'oldid', 'w', 'queue'
+        for n in ast.walk(fi.node):
+            if isinstance(n, ast.For) and isinstance(n.target, ast.Tuple) and len(n.target.elts) == 2 and all(isinstance(x, ast.Name) for x in n.target.elts):
+                kn, wn = n.target.elts[0].id, n.target.elts[1].id
+                for m in ast.walk(n):
+                    if isinstance(m, ast.Assign) and isinstance(m.value, ast.Call) and ast.unparse(m.value.func).endswith('Pipe') and isinstance(m.targets[0], ast.Name):
+                        qn = m.targets[0].id
+                break
+        return kn, wn, qn
+    KN, WN, QN = restart_locals(ex.repo.func(P + '.restart_workers'))
+
     def on_bind(ex_, fr):
         R = ex_.ghost['R']
         se = ex_.ghost['__specenv__']
@@ -452,7 +484,7 @@ def build(ex):
         for j in (se['j0'].e, se['j1'].e):
             ex_.assume(ex_.ghost['R_fact'](j))
             ex_.assume(z3.Implies(z3.And(j >= 0, j < z3.Length(R), j != i), elem(R, j)[0] != elem(R, i)[0]))
-        fr.locals['w'] = VSym(fr.locals['w'].t, hint=('abs', 'AW'))
+        fr.locals[WN] = VSym(fr.locals[WN].t, hint=('abs', 'AW'))
 
     def all_restarted(c, j):
         ex_ = c.ex
@@ -476,8 +508,8 @@ def build(ex):
         start = ex_.ghost['__iter_start__']
         wk1, q1 = ex_.heap[c.env['workers'].addr], ex_.heap[c.env['queues'].addr]
         wk0, q0 = start['heap'][c.env['workers'].addr], start['heap'][c.env['queues'].addr]
-        oldid = lower(c.env['oldid'], ex_)
-        newid = F(ex_, c.env['w'], 'cur_id')
+        oldid = lower(c.env[KN], ex_)
+        newid = F(ex_, c.env[WN], 'cur_id')
         w0 = c.env['w0'].t
         return z3.And(z3.Implies(z3.And(w0 != oldid, w0 != newid),
                                  z3.And(z3.Select(wk1.dom, w0) == z3.Select(wk0.dom, w0), z3.Select(q1.dom, w0) == z3.Select(q0.dom, w0),
@@ -486,7 +518,7 @@ def build(ex):
     others_untouched.__doc__ = 'one iteration changes only the entries of the old and the new id of the restarted worker; the old id is gone from both maps'
     rl = Loop(invariant=[pending_still_registered, done_registered, queues_subset],
               modifies=['self._workers', 'self._queues', 'abs:AW.cur_id', 'abs:AW.pipe', 'abs:AW.restarts', 'abs:AW.alive', 'abs:Conn.inq', 'abs:Conn.ipos', 'abs:Conn.out',
-                        'abs:Conn.open', 'abs:Conn.peer_closed'], on_bind=on_bind, locals={'queue': 'any'})
+                        'abs:Conn.open', 'abs:Conn.peer_closed'], on_bind=on_bind, locals={QN: 'any'})
     rl.step = [others_untouched]
     lemmas.append((Contract(
         P + '.restart_workers', lid='L4', name='C09.L4 restart_workers restarts every worker once and re-keys it under its new id with its fresh pipe; only restart() itself may fail',
